@@ -594,5 +594,56 @@ func wswriteDirect(seed uint64, tier string, args []string, w *bufio.Writer) {
 			}
 		}
 	}()
+	// Close with reasons of every length class: a Close that is accepted puts code + the whole reason on the wire (a reason the
+	// library does not want to send is refused with an error, not cut)
+	func() {
+		defer func() {
+			if p := recover(); p != nil {
+				report("panic", "Close with a long reason panicked: %v", p)
+			}
+		}()
+		for _, async := range []bool{false, true} {
+			for _, n := range []int{0, 1, 2, 100, 122, 123, 124, 125, 126, 130, 142, 200, 1000} {
+				s, err := websocket.NewWebsocketStream(wswriteIO, nil, websocket.RoleClient)
+				if err != nil {
+					return
+				}
+				ms := newMemStream()
+				if err := s.VerifAttach(ms); err != nil {
+					return
+				}
+				reason := make([]byte, n)
+				for j := range reason {
+					reason[j] = byte('a' + j%26)
+				}
+				if n >= 4 {
+					copy(reason[n-4:], "\xe2\x82\xac!") // a multi-byte character near the end
+				}
+				var e error
+				if async {
+					done := false
+					s.AsyncClose(websocket.CloseGoingAway, string(reason), func(err error) { e, done = err, true })
+					for i := 0; i < 10 && !done; i++ {
+						ms.pump()
+					}
+				} else {
+					e = s.Close(websocket.CloseGoingAway, string(reason))
+				}
+				swept++
+				frames, rest := wsParseWire(ms.out)
+				if e != nil && len(ms.out) == 0 {
+					continue // refused: nothing sent
+				}
+				want := append([]byte{0x03, 0xe9}, reason...)
+				if len(rest) != 0 || len(frames) != 1 || frames[0].op != 8 || !bytes.Equal(frames[0].payload, want) {
+					got := -1
+					if len(frames) > 0 {
+						got = len(frames[0].payload)
+					}
+					report("close-reason", "Close(1001, reason of %d bytes) async=%v returned %v and put %d frame(s) + %d stray bytes on the wire; the Close payload has %d bytes, want code + reason = %d", n, async, e, len(frames), len(rest), got, len(want))
+				}
+			}
+		}
+	}()
 	fmt.Fprintf(w, "DIRECT-STAT {\"wswrite_failed_write_trials\": %d, \"wswrite_size_sweep_frames\": %d, \"wswrite_failed_write_keys\": %d}\n", trials, swept, fails)
 }
